@@ -22,6 +22,8 @@ type Gate struct {
 	reached chan struct{}
 	release chan struct{}
 	only    string // if set, only calls from this point count
+	all     string // HoldAll: every call from this point waits
+	waiting int
 	Point   string // where the held call came from
 	Stack   string // call stack of the held call (functions of the code under test)
 }
@@ -44,12 +46,35 @@ func (g *Gate) ArmAt(point string, skip int) {
 	g.mu.Unlock()
 }
 
+// HoldAll makes every call from the named point wait until Release (a burst of
+// requests that overlap in time); Waiting tells how many are waiting.
+func (g *Gate) HoldAll(point string) {
+	g.mu.Lock()
+	defer g.mu.Unlock()
+	g.all, g.waiting = point, 0
+	g.release = make(chan struct{})
+}
+
+// Waiting returns the number of calls HoldAll is holding.
+func (g *Gate) Waiting() int {
+	g.mu.Lock()
+	defer g.mu.Unlock()
+	return g.waiting
+}
+
 // Pass is called at every schedule point.
 func (g *Gate) Pass(point string) {
 	if g == nil {
 		return
 	}
 	g.mu.Lock()
+	if g.all != "" && g.all == point {
+		g.waiting++
+		release := g.release
+		g.mu.Unlock()
+		<-release
+		return
+	}
 	if !g.armed || (g.only != "" && g.only != point) {
 		g.mu.Unlock()
 		return
@@ -89,6 +114,7 @@ func (g *Gate) Release() {
 	g.mu.Lock()
 	defer g.mu.Unlock()
 	g.armed = false
+	g.all = ""
 	if g.release != nil {
 		select {
 		case <-g.release:
